@@ -202,7 +202,11 @@ func (rs *runState) collect(r substreams.ResponseFromAnyTier) error {
 	rs.mu.Lock()
 	defer rs.mu.Unlock()
 	if rs.closed {
-		rs.res.Late++
+		// The real Blocks handler drops anything sent after it returned (cancelled context under
+		// a mutex); only data-carrying messages are counted, as an observation.
+		if resp.GetBlockScopedData() != nil || resp.GetBlockUndoSignal() != nil {
+			rs.res.Late++
+		}
 		return context.Canceled
 	}
 	rs.res.Responses = append(rs.res.Responses, resp)
